@@ -439,6 +439,57 @@ func vStackingOrder() (n int, fails []string) {
 	return n, fails
 }
 
+// vStackingOrderLong: the same comparison on LONG lists (library sorts switch algorithm with the length: an
+// unstable sort is an insertion sort, hence stable, on short lists): 13 to 100 child contexts whose z-indexes cycle
+// through 1..m (and -1..-m) with several strides, so that every value occurs many times out of order.
+func vStackingOrderLong() (n int, fails []string) {
+	style := tree.ComputedFromCascaded(nil, nil, nil, nil)
+	parent := bo.NewBlockBox(style, nil, "", nil)
+	for _, size := range []int{13, 14, 20, 33, 64, 100} {
+		boxes := make([]Box, size)
+		for i := range boxes {
+			boxes[i] = bo.NewBlockBox(style, nil, "", nil)
+		}
+		for _, m := range []int{2, 3, 5} {
+			for _, stride := range []int{1, 2, 7} {
+				for _, sign := range []int{1, -1} {
+					n++
+					zs := make([]int, size)
+					children := make([]StackingContext, size)
+					for i := range zs {
+						zs[i] = sign * ((i*stride)%m + 1)
+						children[i] = StackingContext{box: boxes[i], zIndex: zs[i]}
+					}
+					sc := NewStackingContext(parent, children, nil, nil, nil, nil)
+					got := sc.positiveZContexts
+					if sign < 0 {
+						got = sc.negativeZContexts
+					}
+					var want []int
+					for z := -m; z <= m; z++ {
+						for i, zi := range zs {
+							if zi == z {
+								want = append(want, i)
+							}
+						}
+					}
+					ok := len(got) == len(want)
+					for j := 0; ok && j < len(got); j++ {
+						ok = got[j].box == boxes[want[j]]
+					}
+					if !ok && len(fails) < 5 {
+						fails = append(fails, fmt.Sprintf("%d children, z-indexes cycling through %d values (stride %d, sign %d): not in ascending z-index order with ties in tree order", size, m, stride, sign))
+					}
+				}
+			}
+		}
+	}
+	return n, fails
+}
+
+//@ bounded vStackingOrderLong NewStackingContext on 108 lists of 13 to 100 child contexts whose z-indexes cycle through 2, 3 or 5 values (both signs, three strides): ascending z-index, ties in tree order
+//@   props C16
+
 //@ bounded vStackingOrder NewStackingContext on every list of up to five child contexts with z-indexes in -2..2 (3 906 lists): negative ascending, zero in tree order, positive ascending, ties in tree order
 //@   props C16
 
